@@ -1269,6 +1269,7 @@ fn w18(def: &PropDef, args: &WorkerArgs) -> WorkerReport {
         1 => sustain_strategy().prop_map(RegOrProbe::Reg),
         3 => crate::probe::strategy().prop_map(RegOrProbe::Probe),
         1 => crate::probe::sustain_strategy().prop_map(RegOrProbe::Probe),
+        2 => crate::iter::strategy(true).prop_map(RegOrProbe::Iter),
     ]
     .boxed();
     generic_worker(def, args, strat, &run_any)
